@@ -63,6 +63,8 @@ def payload_text(p):
         return "prt:%s:%s" % (p[1], spec(p[2]))
     if k == "sec":
         return "sec:" + spec(p[1])
+    if k == "seca":
+        return "seca:%d:%s" % (p[1], spec(p[2]))
     if k == "ty":
         return "ty:" + p[1]
     raise ValueError(k)
@@ -84,6 +86,8 @@ def payload_enc(p):
         return None if len(p[2]) > 65535 else tlv_enc(TYPE_CODES[p[1]], p[2])
     if k == "sec":
         return p[1]
+    if k == "seca":
+        return p[2]
     if k == "ty":
         return bytes([TYPE_CODES[p[1]]])
     raise ValueError(k)
@@ -122,8 +126,11 @@ def rand_payload(rng, big=False):
         return ("pr", rng.getrandbits(8), rand_value(rng, big))
     if c < 0.82:
         return ("prt", rng.choice(list(TYPE_CODES)), rand_value(rng, big))
-    if c < 0.92:
+    if c < 0.88:
         return ("sec", rand_value(rng, big))
+    if c < 0.93:
+        from .v2gen import rand_tlvs
+        return ("seca", rng.randint(0, 3), rand_tlvs(rng, 60) + rng.choice([b"", b"\x01", b"\x01\x00"]))
     return ("ty", rng.choice(list(TYPE_CODES)))
 
 
